@@ -200,7 +200,9 @@ def main(tier):
                   extra=1, L=L_, B=B_, hasval=hv, LV=max(B_, 3), focus="batch")
              for (e, L_, B_, hv) in ([(2, 5, 2, False), (2, 6, 3, True)] if tier == "quick" else
                                      [(2, 5, 2, False), (2, 6, 3, True), (3, 7, 2, True), (1, 4, 4, False), (2, 9, 4, False), (3, 3, 1, True)])]
-    ttraces = core.pmap(c19.train_run, [(10000 + i, sp, core.SEED + i) for i, sp in enumerate(specs)], procs=6)
+    specs[-1]["ndev"] = 3 if specs[-1]["B"] % 3 == 0 else 2          # one run on several (forced host-platform) devices: a real pmap
+    with core.host_devices(4):
+        ttraces = core.pmap(c19.train_run, [(10000 + i, sp, core.SEED + i) for i, sp in enumerate(specs)], procs=6)
     tv = tracelib.validate(chk, "trace/Trace_TrainLoop.tla", [{"tid": t["tid"], "cfg": t["cfg"], "events": t["events"]} for t in ttraces], workers=4)
     for t in ttraces:
         chk.evaluations += 1
@@ -227,15 +229,8 @@ def main(tier):
                 for keyseed in [None, rng.randint(0, 10 ** 6)] + ([rng.randint(0, 10 ** 6)] if tier == "thorough" else []):
                     etid += 1
                     eitems.append((etid, L, B, keyseed, ndev, etid % 2 == 0))
-    old_flags = os.environ.get("XLA_FLAGS")
-    os.environ["XLA_FLAGS"] = "--xla_force_host_platform_device_count=4" + ((" " + old_flags) if old_flags else "")
-    try:
+    with core.host_devices(4):
         etraces = [t for ch in core.pmap(eval_chunk, core.shards(eitems, 12), crash_value=[]) for t in ch]
-    finally:
-        if old_flags is None:
-            del os.environ["XLA_FLAGS"]
-        else:
-            os.environ["XLA_FLAGS"] = old_flags
     if len(etraces) < len(eitems) // 2:
         raise RuntimeError("evaluation traces: only %d of %d recorded" % (len(etraces), len(eitems)))
     ev_verdicts = tracelib.validate(chk, "trace/Trace_TrainLoop.tla", [{"tid": t["tid"], "cfg": t["cfg"], "events": t["events"]} for t in etraces], workers=8)
